@@ -9,6 +9,7 @@ import (
 	"context"
 	"encoding/json"
 	"fmt"
+	"io"
 	"net/http"
 	"net/http/httptest"
 	"os"
@@ -53,8 +54,12 @@ func c12NewEnv(t *rapid.T, base string, ucfg *telemetry.UploadConfig, maxBytes i
 	return &c12Env{root: root, cfg: cfg, ucfg: ucfg, handler: newHandler(context.Background(), cfg)}
 }
 
-func c12Do(h http.Handler, method, path string, body []byte) *httptest.ResponseRecorder {
-	req := httptest.NewRequest(method, path, bytes.NewReader(body))
+func c12Do(h http.Handler, method, path string, body []byte, unknownLength bool) *httptest.ResponseRecorder {
+	var rd io.Reader = bytes.NewReader(body)
+	if unknownLength {
+		rd = struct{ io.Reader }{rd} // no declared Content-Length (what a chunked request looks like to the handler)
+	}
+	req := httptest.NewRequest(method, path, rd)
 	req.Header.Set("Content-Type", "application/json")
 	rec := httptest.NewRecorder()
 	h.ServeHTTP(rec, req)
@@ -159,10 +164,11 @@ func TestVerifC12Upload(t *testing.T) {
 				wellTyped = true
 			}
 			before := vsnap.Take(env.root)
-			rec := c12Do(env.handler, method, path, body)
+			unknownLength := rapid.IntRange(0, 3).Draw(t, "unknownLength") == 0
+			rec := c12Do(env.handler, method, path, body, unknownLength)
 			after := vsnap.Take(env.root)
 			diff := vsnap.Diff(before, after, nil)
-			desc := fmt.Sprintf("%s %s class=%s%s len=%d limit=%d -> %d", method, path, class, map[bool]string{true: "(" + detail + ")", false: ""}[detail != ""], len(body), maxBytes, rec.Code)
+			desc := fmt.Sprintf("%s %s chunked=%v class=%s%s len=%d limit=%d -> %d", method, path, unknownLength, class, map[bool]string{true: "(" + detail + ")", false: ""}[detail != ""], len(body), maxBytes, rec.Code)
 			descs = append(descs, desc)
 			vstats.Label("class:" + class)
 			if rec.Code >= 500 {
